@@ -79,63 +79,71 @@ def _cvc5(smt2, timeout_s):
         os.unlink(fn)
 
 
+def _relaxed_unsat(ob, timeout_s):
+    """sound over-approximation: integers relaxed to reals, floor/ToInt/div/mod replaced by fresh reals with their bounds and the
+    pairwise monotonicity instances.  `unsat` of the relaxation implies `unsat` of the obligation; `sat` proves nothing."""
+    try:
+        rel = relax_to_reals(list(ob.pc) + [z3.Not(ob.formula)])
+    except Exception:
+        rel = None
+    if rel is None:
+        return False
+    s3 = z3.Tactic('qfnra-nlsat').solver() if not _has_quantifier(rel) else z3.Solver()
+    s3.set('timeout', int(timeout_s * 1000))
+    s3.add(*rel)
+    try:
+        return s3.check() == z3.unsat
+    except z3.Z3Exception:
+        return False
+
+
 def discharge(ob, inputs, timeout_s=30, use_cvc5=True, ufuns=None):
+    """portfolio with escalating budgets: z3 (4 s) -> real relaxation/nlsat (6 s) -> cvc5 -> relaxation (full) -> z3 (full)"""
     t0 = time.time()
+    # stage 0: fewer hypotheses first (sound): the goal alone, then the path-condition conjuncts that share a variable with it
+    if len(ob.pc) > 3:
+        for sub, label in ((lambda: [], 'z3(goal only)'), (lambda: _relevant(ob.pc, ob.formula), 'z3(relevant hypotheses)')):
+            s0 = z3.Solver()
+            s0.set('timeout', 1500)
+            hyp = sub()
+            if label.startswith('z3(rel') and len(hyp) in (0, len(ob.pc)):
+                continue
+            s0.add(*hyp)
+            s0.add(z3.Not(ob.formula))
+            if s0.check() == z3.unsat:
+                ob.status, ob.backend = 'discharged', label
+                ob.time = time.time() - t0
+                return ob
     s = z3.Solver()
-    first = min(timeout_s, 4)
-    s.set('timeout', int(first * 1000))
+    s.set('timeout', int(min(timeout_s, 4) * 1000))
     s.set('random_seed', 7)
     s.add(*ob.pc)
     s.add(z3.Not(ob.formula))
     r = s.check()
     ob.backend = 'z3'
     if r == z3.unknown:
-        if use_cvc5:
-            try:
-                res0 = _cvc5(s.to_smt2().replace('(check-sat)', ''), timeout_s)
-            except Exception:
-                res0 = 'unknown'
-            if res0 == 'unsat':
-                ob.status, ob.backend = 'discharged', 'cvc5'
-                ob.time = time.time() - t0
-                return ob
-        # sound over-approximation: integers relaxed to reals, floor/ToInt replaced by a fresh real with its bounds and the
-        # pairwise monotonicity instances.  `unsat` of the relaxation implies `unsat` of the obligation; `sat` proves nothing.
-        try:
-            rel = relax_to_reals(list(ob.pc) + [z3.Not(ob.formula)])
-        except Exception:
-            rel = None
-        if rel is not None:
-            s3 = z3.Tactic('qfnra-nlsat').solver() if not _has_quantifier(rel) else z3.Solver()
-            s3.set('timeout', int(timeout_s * 1000))
-            s3.add(*rel)
-            if s3.check() == z3.unsat:
-                ob.status, ob.backend = 'discharged', 'z3:real-relaxation(nlsat)'
-                ob.time = time.time() - t0
-                return ob
-        s.set('timeout', int(timeout_s * 1000))
-        r = s.check()
-        use_cvc5 = False
-    if r == z3.unknown and use_cvc5:
-        try:
-            res = _cvc5(s.to_smt2().replace('(check-sat)', ''), timeout_s)
-        except Exception:
-            res = 'unknown'
-        if res == 'unsat':
-            ob.status, ob.backend = 'discharged', 'cvc5'
+        done = None
+        if _relaxed_unsat(ob, min(timeout_s, 6)):
+            done = 'z3:real-relaxation(nlsat)'
+        elif use_cvc5 and _cvc5(s.to_smt2().replace('(check-sat)', ''), min(timeout_s, 20)) == 'unsat':
+            done = 'cvc5'
+        elif timeout_s > 6 and _relaxed_unsat(ob, timeout_s):
+            done = 'z3:real-relaxation(nlsat)'
+        if done:
+            ob.status, ob.backend = 'discharged', done
             ob.time = time.time() - t0
             return ob
-        # a cvc5 `sat` carries no model we can replay: retry z3 with another tactic below
-        s2 = z3.Then('simplify', 'solve-eqs', 'smt').solver()
-        s2.set('timeout', int(timeout_s * 1000))
-        s2.add(*ob.pc)
-        s2.add(z3.Not(ob.formula))
-        r = s2.check()
-        if r != z3.unknown:
-            s = s2
-            ob.backend = 'z3(simplify,solve-eqs,smt)'
-        elif res == 'sat':
-            ob.note = 'cvc5 answered sat (no model extracted); z3 unknown'
+        s.set('timeout', int(timeout_s * 1000))
+        r = s.check()
+        if r == z3.unknown:
+            s2 = z3.Then('simplify', 'solve-eqs', 'smt').solver()
+            s2.set('timeout', int(timeout_s * 1000))
+            s2.add(*ob.pc)
+            s2.add(z3.Not(ob.formula))
+            r2 = s2.check()
+            if r2 != z3.unknown:
+                r, s = r2, s2
+                ob.backend = 'z3(simplify,solve-eqs,smt)'
     if r == z3.unsat:
         ob.status = 'discharged'
     elif r == z3.sat:
@@ -331,3 +339,27 @@ def relax_to_reals(formulas):
                 b, w = floors[j]
                 extra.append(K.Implies(a <= b, v <= w))
     return out + extra
+
+
+def _vars(e, acc=None, seen=None):
+    acc = set() if acc is None else acc
+    seen = set() if seen is None else seen
+    stack = [e]
+    while stack:
+        x = stack.pop()
+        i = x.get_id()
+        if i in seen:
+            continue
+        seen.add(i)
+        if z3.is_const(x) and x.decl().kind() == z3.Z3_OP_UNINTERPRETED:
+            acc.add(i)
+        elif z3.is_quantifier(x):
+            stack.append(x.body())
+        else:
+            stack.extend(x.children())
+    return acc
+
+
+def _relevant(pc, goal):
+    gv = _vars(goal)
+    return [c for c in pc if _vars(c) & gv]
